@@ -219,6 +219,25 @@ func pooledBytesCore(p *Program) (int, []string) {
 						work = append(work, x)
 					}
 				case *ssa.Call:
+					// a library function given pooled memory may hand back a view of it (snappy.Decode(dst, src), append-style APIs)
+					if sc := x.Call.StaticCallee(); sc != nil && !isPikeFunc(sc) && sc.Signature.Recv() == nil {
+						res := sc.Signature.Results()
+						if res.Len() >= 1 {
+							if _, isSlice := res.At(0).Type().Underlying().(*types.Slice); isSlice {
+								if res.Len() == 1 && !tainted[x] {
+									tainted[x] = true
+									work = append(work, x)
+								} else if res.Len() > 1 {
+									for _, rr := range *x.Referrers() {
+										if ex, ok := rr.(*ssa.Extract); ok && ex.Index == 0 && !tainted[ex] {
+											tainted[ex] = true
+											work = append(work, ex)
+										}
+									}
+								}
+							}
+						}
+					}
 					// methods on the pooled object returning views of its memory
 					if sc := x.Call.StaticCallee(); sc != nil && len(x.Call.Args) > 0 && x.Call.Args[0] == v {
 						switch sc.String() {
